@@ -1,5 +1,6 @@
 import QV.Shared.SchedFrames
 import QV.C22.Spec
+import QV.Shared.HandlerLemmas
 /-
 C22 — Every block's dependency graph is a well-formed DAG.  Property theorems only.
 -/
@@ -344,6 +345,38 @@ theorem C22_connected (b : Block) (es : List Edge) (h : buildBlock b = .ok es) (
 theorem C22_build_dagSpec (b : Block) (es : List Edge) (h : buildBlock b = .ok es) (hyp : Hyp b) :
     DagSpec b es :=
   ⟨(C22_forward b es h hyp).1, (C22_forward b es h hyp).2, fun hrf i hi => C22_connected b es h hyp hrf i hi⟩
+
+/-! ### Composition with C26/C27/C28: no hypothesis about the handler -/
+
+open QV.HandlerFromAst in
+/-- **C22 for every AST program and every block of its control-flow graph.** The handler's answers are computed
+from the AST (C27's and C26's proved models, the role table), the blocks by C28's proved model; `Hyp` is a theorem
+(`schedBlock_hyp`). Whenever `build` succeeds the graph is a well-formed DAG, and if every RF-control instruction
+of the block uses or blocks at least one DEFINED frame — by C26's specification `UsedBy` / `BlockedBy` — every
+instruction node is reachable from the start and reaches the end. -/
+theorem C22_ast_dagSpec (p : AProgram) (ab : ABlock) (hab : ab ∈ astBlocks p) (es : List Edge)
+    (h : buildBlock (schedBlock p ab) = .ok es) :
+    (∀ e ∈ es, Valid ab.instrs.length e.src ∧ Valid ab.instrs.length e.dst) ∧
+    (∀ e ∈ es, e.src.pos ab.instrs.length < e.dst.pos ab.instrs.length) ∧
+    (∀ u, ¬ Path1 es u u) ∧
+    ((∀ i ∈ ab.instrs, role i = .rf → ∃ f k, FrameAccessA p i f k) → ∀ n, n < ab.instrs.length →
+      Reach es anyLabel .start (.instr n) ∧ Reach es anyLabel (.instr n) .stop) := by
+  have hyp : Hyp (schedBlock p ab) := schedBlock_hyp p ab hab
+  have hspec := C22_build_dagSpec _ es h hyp
+  have hlen : (schedBlock p ab).instrs.length = ab.instrs.length := by simp [schedBlock]
+  refine ⟨by rw [← hlen]; exact hspec.valid, by rw [← hlen]; exact hspec.forward, fun u => ?_, ?_⟩
+  · have := C22_acyclic _ es h hyp u
+    exact this
+  · intro hrf n hn
+    apply hspec.connected _ n (by rw [hlen]; exact hn)
+    intro ins hins hr
+    simp only [schedBlock, List.mem_map] at hins
+    obtain ⟨i, hi, rfl⟩ := hins
+    obtain ⟨f, k, hf⟩ := hrf i hi (by simpa [answersOf, answersWith] using hr)
+    intro hnil
+    have := (mem_frameAccesses_answers p i (frameId p f, k)).2 ⟨f, rfl, hf⟩
+    rw [hnil] at this
+    simp at this
 
 /-! ### The Bool checker -/
 
